@@ -46,6 +46,18 @@ def reorder_val(v):
     return v
 
 
+def canon_val(v):
+    """a reified value modulo the iteration order of sets / frozensets / dicts / defaultdicts at any depth"""
+    k = v[0]
+    if k in ('list', 'tuple', 'deque'):
+        return [k, [canon_val(x) for x in v[1]]] + v[2:]
+    if k in ('set', 'frozenset'):
+        return [k, sorted((canon_val(x) for x in v[1]), key=json.dumps)] + v[2:]
+    if k in ('dict', 'defaultdict'):
+        return [k, sorted(([canon_val(a), canon_val(b)] for a, b in v[1]), key=json.dumps)] + v[2:]
+    return v
+
+
 def gen_cases(rng, pid, tier):
     P = PROFILE[pid]
     t = 0 if tier == 'quick' else 1
@@ -242,6 +254,9 @@ def run(pid, tier, seed, replay, props, judge, extra_streams=None, rule_extra=''
         zoo_cases = [replay['case']]
     elif replay is not None:
         cases = [replay['case']]
+        if 'twin_case' in replay['case']:       # a twin comparison: replay the pair
+            cases = [dict(replay['case']['twin_case'], grp=0), dict(replay['case'], twin=0, grp=0)]
+            cases[0].pop('twin', None)
         zoo_cases = []
     else:
         n_scale = ck.scale()
